@@ -1112,7 +1112,7 @@ theorem topExpr_cl {inputs : List String} {ρ : Env} {σ0 : FState} {r : String}
     (h : (compileExpr e none (some r)).run s = .ok (iret, t)) (hp : Pre inputs ρ σ0 s)
     (hk : s.qc.kept = []) (hex : s.expq = []) (hinp : s.inputs = inputs) :
     Cl inputs.length NoP (· = iret) s t ∧
-      ((isSym e = false ∨ r.startsWith "_ret" = true) → inputs.length ≤ iret) := by
+      ((isSym e = false ∨ r.startsWith "_ret" = true) → inputs.length ≤ iret) ∧ t.qc.free = [] := by
   cases hs : isSym e with
   | true =>
     cases e with
@@ -1146,7 +1146,8 @@ theorem topExpr_cl {inputs : List String} {ρ : Env} {σ0 : FState} {r : String}
           have cla : Cl inputs.length NoP NoP s s3 := by
             rw [hs2]; exact Cl.quiet rfl rfl (fun _ h => h) (fun _ h => h) rfl
           have clc := cx_cl (n := inputs.length) hcx hge
-          refine ⟨Cl.trans cla clc (fun _ h => h.elim) (fun _ _ h => h.elim) ?_ (fun q _ h => Or.inr h), fun _ => hge⟩
+          refine ⟨Cl.trans cla clc (fun _ h => h.elim) (fun _ _ h => h.elim) ?_ (fun q _ h => Or.inr h), fun _ => hge,
+            by rw [(cx_run hcx).free, hs2]; exact hp.free⟩
           intro c hc
           have : c = q := by simpa using hc
           subst this
@@ -1160,7 +1161,7 @@ theorem topExpr_cl {inputs : List String} {ρ : Env} {σ0 : FState} {r : String}
         split at h
         · obtain ⟨hiret, hst⟩ := run_pure_ok.mp h
           subst hst
-          refine ⟨Cl.refl _, fun hc => ?_⟩
+          refine ⟨Cl.refl _, fun hc => ?_, hp.free⟩
           rcases hc with hc | hc
           · simp at hc
           · exact absurd hc hret
@@ -1176,7 +1177,7 @@ theorem topExpr_cl {inputs : List String} {ρ : Env} {σ0 : FState} {r : String}
       (by intro y hy; cases hy; rfl) hss
     obtain ⟨cl, hres⟩ := exprCl (ρ := ρ) amb e hov hdis none (some r) h hp hk hc0 (by intro d hd; cases hd)
       (by intro y hy; cases hy; rfl) hss
-    refine ⟨cl, fun _ => ?_⟩
+    refine ⟨cl, fun _ => ?_, hpt.free⟩
     rcases hres rfl with h' | h'
     · rw [hs] at h'; cases h'.2
     · exact hpt.sge.1 _ h'
@@ -1277,7 +1278,7 @@ theorem compile_single_clean {inputs : List String} {r : String} {e : BExp} {ret
   obtain ⟨q1, hlt⟩ := exprSpec (B := (· = r)) e none (some r) he st1.good (by intro d hd; cases hd)
     (by intro y hy; cases hy; rfl)
   obtain ⟨_, hnm⟩ := topExpr_sem (ρ := envOf (inputs.zip x)) amb hov htl he hp1 hex1 hm1 hinp1
-  obtain ⟨cl0, hge⟩ := topExpr_cl (ρ := envOf (inputs.zip x)) amb hov htl he hp1 hk1 hex1 hinp1
+  obtain ⟨cl0, hge, _⟩ := topExpr_cl (ρ := envOf (inputs.zip x)) amb hov htl he hp1 hk1 hex1 hinp1
   have q1' : Step (· = r) t1 t1' := expqRemoveSymbol_ok hrs q1.good
   have hqc1' : t1'.qc = t1.qc := by
     unfold expqRemoveSymbol at hrs
@@ -1377,5 +1378,217 @@ theorem compile_single_clean {inputs : List String} {r : String} {e : BExp} {ret
     · obtain ⟨g', hg', _, ew, _⟩ := hUmem g hg
       have : g.target = g'.target := by unfold AGate.target; rw [ew]
       rw [this]; exact (hG g' hg').2.1
+
+/-! ### no return name requested: the definition's ancillas are kept, `uncompute_all` replays everything -/
+
+private theorem nop_false_of_mcxLike {c : GClass} (h : c.isMCXLike = true) : c.isNop = false := by
+  cases c <;> simp_all [GClass.isMCXLike, GClass.isNop]
+
+/-- `uncompute_all`'s loop replays (up to gate identity) every gate that is not a barrier and whose
+target is neither kept nor already free -/
+theorem uncomputeAllLoop_full {keep alreadyFree : List Nat} {off : Nat} :
+    ∀ (gs : List AGate) {u : Unit} {s s' : CState},
+    (uncomputeAllLoop keep alreadyFree off gs).run s = .ok (u, s') →
+    (∀ g ∈ gs, g.cls.isNop = false ∧ keep.contains g.target = false ∧ alreadyFree.contains g.target = false) →
+    ∃ extra, s'.qc.gates.toList = s.qc.gates.toList ++ extra ∧ extra.map gcore = gs.map gcore ∧
+      s'.qc.qmap = s.qc.qmap ∧ s'.qc.numQubits = s.qc.numQubits
+  | [], u, s, s', h, _ => by
+    unfold uncomputeAllLoop at h
+    obtain ⟨_, rfl⟩ := run_pure_ok.mp h
+    exact ⟨[], by simp, by simp, rfl, rfl⟩
+  | g :: gs, u, s, s', h, hall => by
+    unfold uncomputeAllLoop at h
+    dsimp only at h
+    obtain ⟨qc, s1, hq, h1⟩ := run_bind_ok.mp h
+    obtain ⟨rfl, rfl⟩ := getQC_run hq
+    obtain ⟨g1, g2, g3⟩ := hall g List.mem_cons_self
+    rcases run_ite_ok.mp h1 with ⟨hskip, _⟩ | ⟨_, h1⟩
+    · rw [g1, g2, g3] at hskip; simp at hskip
+    · have rest : ∀ {s2 : CState},
+          StateT.run (do
+            let b ← appendG g.cls g.wires (some (g.gid + off, g.gid))
+            if b = true then do
+              event "staleReplay"
+              uncomputeAllLoop keep alreadyFree off gs
+            else uncomputeAllLoop keep alreadyFree off gs : M Unit) s2 = .ok (u, s') →
+          s2.qc.gates = s1.qc.gates → s2.qc.qmap = s1.qc.qmap →
+          s2.qc.numQubits = s1.qc.numQubits →
+          ∃ extra, s'.qc.gates.toList = s1.qc.gates.toList ++ extra ∧
+            extra.map gcore = (g :: gs).map gcore ∧ s'.qc.qmap = s1.qc.qmap ∧
+            s'.qc.numQubits = s1.qc.numQubits := by
+        intro s2 h2 hg2 hq2 hn2
+        obtain ⟨b, s3, happ, h3⟩ := run_bind_ok.mp h2
+        have ha := appendG_run happ
+        obtain ⟨g', hgc, hgw, hgates, _⟩ := ha.gates
+        have fin : ∀ {s4 : CState}, s4.qc = s3.qc →
+            (uncomputeAllLoop keep alreadyFree off gs).run s4 = .ok (u, s') →
+            ∃ extra, s'.qc.gates.toList = s1.qc.gates.toList ++ extra ∧
+              extra.map gcore = (g :: gs).map gcore ∧ s'.qc.qmap = s1.qc.qmap ∧
+              s'.qc.numQubits = s1.qc.numQubits := by
+          intro s4 hq4 h4
+          obtain ⟨extra, e1, e2, e3, e4⟩ := uncomputeAllLoop_full gs h4
+            (fun x hx => hall x (List.mem_cons_of_mem _ hx))
+          refine ⟨g' :: extra, ?_, ?_, ?_, ?_⟩
+          · rw [e1, hq4, hgates, hg2]; simp
+          · have hg : gcore g' = gcore g := by unfold gcore; rw [hgc, hgw]
+            rw [List.map_cons, List.map_cons, e2, hg]
+          · rw [e3, hq4, ha.qmap, hq2]
+          · rw [e4, hq4, ha.nq, hn2]
+        rcases run_ite_ok.mp h3 with ⟨_, h3⟩ | ⟨_, h3⟩
+        · obtain ⟨u1, s4, hev, h4⟩ := run_bind_ok.mp h3
+          have := event_run hev; subst this
+          exact fin (s4 := { s3 with events := s3.events ++ ["staleReplay"] }) rfl h4
+        · exact fin rfl h3
+      rcases run_ite_ok.mp h1 with ⟨_, h1⟩ | ⟨_, h1⟩
+      · obtain ⟨u1, s2, hm, h2⟩ := run_bind_ok.mp h1
+        have := modQC_run hm; subst this
+        exact rest h2 rfl rfl rfl
+      · exact rest h1 rfl rfl rfl
+
+/-- `uncompute_all([])` from an empty free set appends (up to gate identity) the reversed gate list -/
+theorem uncomputeAll_full {u : Unit} {s s' : CState}
+    (h : (uncomputeAll []).run s = .ok (u, s')) (hf : s.qc.free = [])
+    (hn : ∀ g ∈ s.qc.gates.toList, g.cls.isNop = false) :
+    ∃ extra, s'.qc.gates.toList = s.qc.gates.toList ++ extra ∧
+      extra.map gcore = s.qc.gates.toList.reverse.map gcore ∧
+      s'.qc.qmap = s.qc.qmap ∧ s'.qc.numQubits = s.qc.numQubits := by
+  unfold uncomputeAll at h
+  obtain ⟨qc, s1, hq, h1⟩ := run_bind_ok.mp h
+  obtain ⟨rfl, rfl⟩ := getQC_run hq
+  obtain ⟨u1, s2, hloop, hm⟩ := run_bind_ok.mp h1
+  obtain ⟨extra, e1, e2, e3, e4⟩ := uncomputeAllLoop_full _ hloop (fun g hg =>
+    ⟨hn g (List.mem_reverse.mp hg), rfl, by rw [hf]; rfl⟩)
+  have := modQC_run hm; subst this
+  exact ⟨extra, e1, e2, e3, e4⟩
+
+theorem mapQubit_keeps_free {name : String} {index : Nat} {promote : Bool} {u : Unit} {s s' : CState}
+    (h : (mapQubit name index promote).run s = .ok (u, s')) : s'.qc.free = s.qc.free := by
+  unfold mapQubit at h
+  dsimp only at h
+  obtain ⟨qc, s1, hq, h⟩ := run_bind_ok.mp h
+  obtain ⟨rfl, rfl⟩ := getQC_run hq
+  split at h
+  · obtain ⟨u2, s3, hm1, hmatch⟩ := run_bind_ok.mp h
+    have := modQC_run hm1; subst this
+    split at hmatch
+    · obtain ⟨u3, s4, hm2, hm3⟩ := run_bind_ok.mp hmatch
+      have := modQC_run hm2; subst this
+      have := modQC_run hm3; subst this
+      rfl
+    · have := modQC_run hmatch; subst this
+      rfl
+  · have := modQC_run h; subst this
+    rfl
+
+/-- **one definition `r = e` of the tree-like fragment, `uncompute = true`, no return name requested**: the
+statement ends with `keep_ancillas` (nothing is released), the final `uncompute_all([])` replays every gate
+in reverse: after every successful run of `compile`, on every input every qubit is back to its initial value -/
+theorem compile_single_norets {inputs : List String} {r : String} {e : BExp}
+    {unc : Bool} {cs : List Nat} {s : CState}
+    (h : (compile inputs [(r, e)] (some []) unc).run { choices := cs } = .ok ((), s))
+    (hunc : unc = true)
+    (hnd : inputs.Nodup) (hfresh : ∀ n ∈ inputs, n ≠ r ∧ reservedName n = false)
+    (hov : overInputs inputs e = true) (htl : treeLike e = true)
+    (x : List Bool) (hx : x.length = inputs.length) :
+    ∀ p, (runClassical s.qc.gates.toList (initState x s.qc.numQubits)).getD p false =
+      (initState x s.qc.numQubits).getD p false := by
+  have hgs : Good s := (compile_ok h).1
+  unfold compile at h
+  obtain ⟨u0, s0, hmod, h1⟩ := run_bind_ok.mp h
+  have := run_modify_ok.mp hmod; subst this
+  have hg0 : Good { choices := cs, inputs := inputs } := good_init cs inputs
+  obtain ⟨u1, s1, hin, h2⟩ := run_bind_ok.mp h1
+  obtain ⟨st1, hn1, _, hpos⟩ := addInputs_ok inputs hin hg0
+  obtain ⟨ha1, hf1, hm1, hk1⟩ := addInputs_scratch inputs hin
+  obtain ⟨hga1, hex1, hinp1⟩ := addInputs_quiet inputs hin
+  obtain ⟨u2, s2, hdefs, h3⟩ := run_bind_ok.mp h2
+  obtain ⟨st2, _⟩ := compileDefs_ok (B := (· = r)) (retBits := some []) (doUnc := unc) [(r, e)] hdefs st1.good
+    (fun p hp => by simp at hp; rw [hp])
+  have hg2 := st2.good
+  obtain ⟨u3, s3, hrem, h4⟩ := run_bind_ok.mp h3
+  obtain ⟨hrg, hrq, hrn⟩ := removeIdentities_run hrem
+  have hrf := removeIdentities_free hrem
+  -- ambient facts for this input
+  have hn1' : s1.qc.numQubits = inputs.length := by rw [hn1]; simp
+  have hnin2 : inputs.length ≤ s2.qc.numQubits := by rw [← hn1']; exact st2.nq_le
+  let σ : BState := initState x s.qc.numQubits
+  let σ0 : FState := toF σ
+  have amb : Amb inputs σ0 r := by
+    refine ⟨hfresh, fun q hq => ?_⟩
+    show (initState x s.qc.numQubits).getD q false = false
+    rw [initState_getD]
+    have : x[q]? = none := by simp; omega
+    simp [List.getD_eq_getElem?_getD, this]
+  have hp1 : Pre inputs (envOf (inputs.zip x)) σ0 s1 := by
+    refine ⟨st1.good, hf1, Nat.le_of_eq hn1'.symm, ⟨?_, ?_, ?_, ?_⟩, ?_, ?_⟩
+    · rw [ha1]; intro a ha; cases ha
+    · rw [hf1]; intro a ha; cases ha
+    · rw [hm1]; intro a ha; cases ha
+    · rw [hk1]; intro a ha; cases ha
+    · intro i n hi
+      have := hpos hnd (fun m hm => (hfresh m hm).2) i n hi
+      simpa using this
+    · intro i n hi
+      show runF s1.qc.gates.toList σ0 i = _
+      rw [hga1]
+      show (initState x s.qc.numQubits).getD i false = _
+      rw [initState_getD, envOf_zip hnd hi]
+  -- the statement loop: nothing is released
+  unfold compileDefs at hdefs
+  obtain ⟨iret, t1, he, k1⟩ := run_bind_ok.mp hdefs
+  obtain ⟨u40, t1', hrs, k1'⟩ := run_bind_ok.mp k1
+  obtain ⟨u4, t2, hset, k2⟩ := run_bind_ok.mp k1'
+  obtain ⟨u5, t3, hmap, k3⟩ := run_bind_ok.mp k2
+  have hinl : ¬ (inlineUncompute (some []) unc r = true) := by
+    unfold inlineUncompute
+    rw [hunc]
+    simp
+  rw [if_neg hinl] at k3
+  obtain ⟨u6, t4, hkeep, k4⟩ := run_bind_ok.mp k3
+  unfold compileDefs at k4
+  obtain ⟨_, rfl⟩ := run_pure_ok.mp k4
+  obtain ⟨_, _, hfree1⟩ := topExpr_cl (ρ := envOf (inputs.zip x)) amb hov htl he hp1 hk1 hex1 hinp1
+  have hqc1' : t1'.qc = t1.qc := by
+    unfold expqRemoveSymbol at hrs
+    have := run_modify_ok.mp hrs; subst this; rfl
+  obtain ⟨hqc2', _⟩ := expqSet_run hset
+  have hfree3 : t3.qc.free = [] := by rw [mapQubit_keeps_free hmap, hqc2', hqc1']; exact hfree1
+  have hfree4 : s2.qc.free = [] := by
+    unfold keepAncillas at hkeep
+    have := modQC_run hkeep; subst this
+    exact hfree3
+  have hfree : s3.qc.free = [] := by rw [hrf]; exact hfree4
+  -- the final `uncompute_all([])`
+  have hmem3 : ∀ g ∈ s3.qc.gates.toList, g ∈ s2.qc.gates.toList := by
+    intro g hg; rw [hrg] at hg; exact mem_removeIdentitiesList hg
+  have hfin : ∃ U, s.qc.gates.toList = s3.qc.gates.toList ++ U ∧
+      U.map gcore = s3.qc.gates.toList.reverse.map gcore ∧ s.qc.numQubits = s3.qc.numQubits := by
+    dsimp only at h4
+    rcases run_ite_ok.mp h4 with ⟨_, h4⟩ | ⟨hc, _⟩
+    · obtain ⟨qc, s4, hq, h5⟩ := run_bind_ok.mp h4
+      obtain ⟨rfl, rfl⟩ := getQC_run hq
+      obtain ⟨U, e1, e2, _, e4⟩ := uncomputeAll_full h5 hfree
+        (fun g hg => nop_false_of_mcxLike (hg2.gates_ok g (hmem3 g hg)).1)
+      exact ⟨U, e1, e2, e4⟩
+    · exact absurd hunc hc
+  obtain ⟨U, f1, f2, f4⟩ := hfin
+  have hN : s.qc.numQubits = s2.qc.numQubits := f4.trans hrn
+  have hlen : σ.length = s.qc.numQubits := initState_length x _ (by rw [hN, hx]; exact hnin2)
+  have hw : ∀ g ∈ s.qc.gates.toList, ∀ w ∈ g.wires, w < σ.length := by
+    intro g hg w hw
+    rw [hlen]; exact (hgs.gates_ok g hg).2.2.1 w hw
+  have hw3 : ∀ g ∈ s3.qc.gates.toList, ∀ w ∈ g.wires, w < σ.length :=
+    fun g hg => hw g (by rw [f1]; exact List.mem_append_left _ hg)
+  intro p
+  have h1 := congrFun (runF_spec s.qc.gates.toList σ hw) p
+  have h2 := congrFun (runF_spec (s3.qc.gates.toList ++ s3.qc.gates.toList.reverse) σ (by
+    intro g hg
+    rcases List.mem_append.mp hg with hg | hg
+    · exact hw3 g hg
+    · exact hw3 g (List.mem_reverse.mp hg))) p
+  rw [runClassical_reverse_undo _ (fun g hg => (hg2.gates_ok g (hmem3 g hg)).2.1)] at h2
+  refine h1.trans ?_
+  rw [f1, runF_append, runF_gcore f2, ← runF_append]
+  exact h2.symm
 
 end QV.Compiler
